@@ -2,6 +2,9 @@
 """Regenerates MANIFEST.json from the table below (kept in one place so it stays valid)."""
 import json, subprocess
 CHECKS = {
+ "C12": dict(level="exploration", tech="round-trip + golden-vector + hostile-input monitor over the real encoders/decoders (MessagePack and CBOR), exhaustive over the 8-kind tag table and 248 unknown tags; shard-crash journal turns aborts into violations",
+             text="Random values of every record kind (with/without payment proofs) and every request/response variant are encoded and decoded by the real code; tag table and a committed golden corpus pin the wire form; ~250 hostile byte strings per case go through 17 decoders under catch_unwind in sharded child processes.",
+             note="Golden vectors were generated from the pinned tree and are the trusted wire form; equality uses the types' PartialEq.", ref="DESIGN.md §4 C12"),
  "C18": dict(level="exploration", tech="invariant + history oracle over random API histories on two stores sharing one file, CacheData-level merge/clean-up with arbitrary timestamps, corrupt-file corpus, and a multi-process writer/reader stress run observing the shared file",
              text="Every operation of random histories on the real BootstrapCacheStore is followed by bound/form/merge-superset/save-load checks; clean-up is judged on arbitrary timestamps; corrupt and hostile files must not crash; 4-10 real processes flush concurrently while a reader requires every load of an existing file to succeed. Exploration: unbounded histories and interleavings.",
              note="Bounds judged where the code promises them (after add/clean-up/load); stress run is nondeterministic but its oracle is interleaving-sound.", ref="DESIGN.md §4 C18"),
